@@ -189,6 +189,14 @@ def run_columns(ctx):
                     deco(n.get("kids", []))
         deco(nodes)
         fstree.build(root, nodes)
+        # contents spanning several read blocks (32 KiB, 64 KiB), with newlines everywhere and lengths that are
+        # not multiples of a block: a reader that mishandles a short last block shows in line_count / the hashes
+        blk = rng.choice([32768, 65536, 8192])
+        multi = [(b"0123456\n") * 5000, b"ab\n" * 30000 + b"tail", b"\n" * blk + b"0123456789", b"line\n" * (blk // 5) + b"x" * (blk % 5) , b"\n" * (2 * blk),
+                 (b"x" * 99 + b"\n") * rng.randint(400, 2500) + b"y" * rng.randint(0, 50), b"q\n" * (blk // 2) + b"\n" * rng.randint(1, 300)]
+        for k, data in enumerate(rng.sample(multi, 3)):
+            with open(os.path.join(root, "multi%d.log" % k), "wb") as f:
+                f.write(data)
         xattr_paths = set()
         for dp, ds, fs in os.walk(root):
             for f in fs:
@@ -413,7 +421,7 @@ def run(ctx):
     m = run_modes(ctx)
     c = run_columns(ctx)
     ctx.coverage["columns_part"] = dict(queries=c["n"], entries_checked=c["ok"], files_with_capabilities_checked_against_getcap=c.get("capability_files", 0), extension_verdicts_equal_to_regenerated_has_extension=c.get("ext_model_agreed", 0), distinct_entries=len(c["distinct"]), samples=c["samples"],
-                                        rule="random trees (files with contents: empty, shebang, no trailing newline, binary, > 64 KiB, 9000 newlines; mtimes incl. 0 and 2038+; owners without a name; xattrs; sockets; links incl. dangling; dot-files, several dots, upper-case extensions) - columns path,name,ext,dir,abspath,absdir,size,uid,gid,user,group,inode,hardlinks,blocks,modified,is_hidden,is_empty, the eight extension classes (default lists read from config.rs, and a configuration file overriding every list with plain, compound and dot-less endings), sha1/sha256/sha512/sha3, line_count, is_shebang, has_xattrs, capabilities / has_capabilities() / has_capability(c) for the 41 Linux capabilities x flag combinations against getcap, CONTAINS(s) with needles inside a line and across line breaks compared with os.lstat, pwd/grp, hashlib and the directory contents")
+                                        rule="random trees (files with contents: empty, shebang, no trailing newline, binary, > 64 KiB, 9000 newlines, newline-rich contents of 40 KB - 250 KB whose length is not a multiple of a read block; mtimes incl. 0 and 2038+; owners without a name; xattrs; sockets; links incl. dangling; dot-files, several dots, upper-case extensions) - columns path,name,ext,dir,abspath,absdir,size,uid,gid,user,group,inode,hardlinks,blocks,modified,is_hidden,is_empty, the eight extension classes (default lists read from config.rs, and a configuration file overriding every list with plain, compound and dot-less endings), sha1/sha256/sha512/sha3, line_count, is_shebang, has_xattrs, capabilities / has_capabilities() / has_capability(c) for the 41 Linux capabilities x flag combinations against getcap, CONTAINS(s) with needles inside a line and across line breaks compared with os.lstat, pwd/grp, hashlib and the directory contents")
     ctx.coverage.update(
         evaluations=m["evaluations"] + c["ok"], distinct_nontrivial=m["distinct"] + len(c["distinct"]),
         traces_validated_against_impl=m["agreed"],
